@@ -25,11 +25,13 @@ init latency, initial values of the terminal's toggle bits, channel.  All
 scripts of the stated families are enumerated; every execution is run to
 completion (explicit horizon) on fresh pipes, which are closed afterwards.
 """
+import copy
 import itertools
 import os
 
 from mc import core
 
+import ebpfcat.serial
 from ebpfcat.ebpfcat import SimpleEtherCat, SyncGroup
 from ebpfcat.ethercat import SyncManager
 from ebpfcat.serial import Serial
@@ -180,129 +182,250 @@ class Terminal:
                 and not self.waiting_ack and self.rx_next == len(self.rx))
 
 
-def horizon(case):
-    nchunks = sum((n + CHUNK - 1) // CHUNK + 1 for _, n in case["app"])
-    h = case["init"] + 4
-    h += sum(g for g, _ in case["app"]) + nchunks * (K + 3)
-    h += sum(g + 3 for g, _ in case["rx"])
+def horizon(sub):
+    nchunks = sum((n + CHUNK - 1) // CHUNK + 1 for _, n in sub["app"])
+    h = sub["init"] + 4
+    h += sum(g for g, _ in sub["app"]) + nchunks * (K + 3)
+    h += sum(g + 3 for g, _ in sub["rx"])
     return 2 * h + 10
 
 
-def execute(case, trace=None):
-    """returns (violations [(what, expected, observed)], stats dict)"""
-    viol = []
+def subs_of(case):
+    """the channel scripts of an execution; a case without "chans" is one
+    channel described by the case itself"""
+    if "chans" in case:
+        return [dict(s) for s in case["chans"]]
+    return [dict(app=case["app"], lat=case["lat"], rx=case["rx"],
+                 init=case["init"], tog=case["tog"], chan=case["chan"],
+                 term=0, seed=case["seed"])]
 
-    def bad(what, expected, observed):
-        if not any(v[0] == what for v in viol):
-            viol.append((what, expected, observed))
 
-    seed = case["seed"]
+# mutable state the library keeps outside of Serial instances (none in the
+# unchanged tree).  It is put back before every execution, so that executions
+# are independent of which ones a forked worker ran before; *inside* one
+# execution (several Serial devices, a Serial abandoned before another one is
+# made) it is of course left alone - that is what is being checked.
+_MUTABLE = (bytearray, list, dict, set)
+_LIBSTATE = [(ns, k, copy.deepcopy(v))
+             for ns in (vars(Serial), vars(ebpfcat.serial))
+             for k, v in sorted(ns.items(), key=lambda kv: kv[0])
+             if isinstance(v, _MUTABLE) and not k.startswith("__")]
+
+
+def reset_library_state():
+    for ns, k, saved in _LIBSTATE:
+        cur = ns.get(k)
+        if type(cur) is not type(saved):
+            continue
+        if isinstance(cur, (bytearray, list)):
+            cur[:] = saved
+        else:
+            cur.clear()
+            cur.update(saved)
+
+
+class Rig:
+    """one serial channel in an execution: the real Serial device, the model
+    of its terminal side, the application's script and what it has seen"""
+
+    def __init__(self, sub, ser, tag, viol):
+        self.sub, self.ser, self.tag, self.viol = sub, ser, tag, viol
+        self.seed = sub["seed"]
+        self.app = [tuple(x) for x in sub["app"]]
+        self.app_next, self.app_wait = 0, None
+        self.written = bytearray()
+        self.delivered = bytearray()
+        self.tm = None
+
+    def bad(self, what, expected, observed):
+        if not any(v[0] == what and v[3] == self.tag for v in self.viol):
+            self.viol.append((what, expected, observed, self.tag))
+
+    def attach(self, data, inpos, outpos):
+        self.tm = Terminal(data, inpos, outpos, self.sub, self.bad)
+
+    def app_writes(self):
+        """application writes (several writes may fall into one cycle)"""
+        while self.app_next < len(self.app):
+            if self.app_wait is None:
+                self.app_wait = self.app[self.app_next][0]
+            if self.app_wait > 0:
+                self.app_wait -= 1
+                break
+            n = self.app[self.app_next][1]
+            chunk = bytes(app_byte(self.seed, len(self.written) + j)
+                          for j in range(n))
+            if os.write(self.ser.out_write, chunk) != n:
+                raise core.Internal("short write into the device pipe")
+            self.written += chunk
+            self.app_next += 1
+            self.app_wait = None
+
+    def drain(self):
+        """the application drains its receive pipe every cycle"""
+        while True:
+            try:
+                got = os.read(self.ser.in_read, 4096)
+            except BlockingIOError:
+                break
+            if not got:
+                break
+            self.delivered += got
+
+    def check_prefix(self):
+        tm = self.tm
+        exp_deliv = (b"A" if self.ser.connected else b"") + \
+            bytes(tm.announced)
+        if not exp_deliv.startswith(bytes(self.delivered)):
+            self.bad("application received bytes the terminal did not "
+                     "announce (duplicate, reordered or foreign)",
+                     exp_deliv.hex(), bytes(self.delivered).hex())
+        if not bytes(self.written).startswith(bytes(tm.accepted)):
+            self.bad("terminal was given bytes the application did not write "
+                     "in that order (duplicate, reordered or foreign)",
+                     bytes(self.written).hex(), bytes(tm.accepted).hex())
+
+    def complete(self):
+        tm = self.tm
+        return (tm.done() and self.app_next == len(self.app)
+                and tm.accepted == self.written
+                and bytes(self.delivered) == b"A" + bytes(tm.announced))
+
+    def check_final(self):
+        tm = self.tm
+        if bytes(tm.accepted) != bytes(self.written):
+            self.bad("bytes written by the application were not presented "
+                     "to the terminal within the horizon",
+                     bytes(self.written).hex(), bytes(tm.accepted).hex())
+        if bytes(self.delivered) != b"A" + bytes(tm.announced):
+            self.bad("bytes announced by the terminal were not delivered to "
+                     "the application within the horizon",
+                     (b"A" + bytes(tm.announced)).hex(),
+                     bytes(self.delivered).hex())
+        if tm.tr_toggles != len(tm.chunks):
+            self.bad("transmit request toggles != chunks accepted",
+                     len(tm.chunks), tm.tr_toggles)
+        if tm.ra_toggles != len(tm.rx) or tm.waiting_ack:
+            self.bad("receive accept toggles != chunks announced",
+                     len(tm.rx), tm.ra_toggles)
+
+
+def run_phase(subs, viol, phase, limit=None, trace=None):
+    """one sync group with one Serial per sub-script, run for ``limit``
+    cycles and then abandoned, or (limit None) to completion and judged"""
     ec = SimpleEtherCat("c28")
-    term = EL6002(ec)
-    term.position = 5
-    term.pdos = {}
-    term.pdo_in_sz = term.pdo_out_sz = 48
-    chan = term.channel1 if case["chan"] == 1 else term.channel2
-    ser = Serial(chan)
-    fds = [ser.in_read, ser.in_write, ser.out_read, ser.out_write]
+    terms = {}
+    rigs = []
+    fds = []
     try:
-        sg = SyncGroup(ec, [ser])
+        for n, sub in enumerate(subs):
+            t = sub.get("term", 0)
+            if t not in terms:
+                term = EL6002(ec)
+                term.position = 5 + t
+                term.pdos = {}
+                term.pdo_in_sz = term.pdo_out_sz = 48
+                terms[t] = term
+            term = terms[t]
+            chan = term.channel1 if sub["chan"] == 1 else term.channel2
+            ser = Serial(chan)
+            fds += [ser.in_read, ser.in_write, ser.out_read, ser.out_write]
+            tag = phase if len(subs) == 1 and phase == "main" else \
+                "%s, device %d of %d (terminal %d channel %d)" % (
+                    phase, n + 1, len(subs), t, sub["chan"])
+            rigs.append(Rig(sub, ser, tag, viol))
+        if len({(s.get("term", 0), s["chan"]) for s in subs}) != len(subs):
+            raise core.Internal("rig: two devices on one channel")
+        sg = SyncGroup(ec, [r.ser for r in rigs])
         sg.allocate()
         sg.current_data = bytearray(max(46, sg.packet.size))
-        base = 0 if case["chan"] == 1 else 24
-        inpos = sg.pdo_assign[term][SyncManager.IN] + base
-        outpos = sg.pdo_assign[term][SyncManager.OUT] + base
-        if abs(inpos - outpos) < 48:
-            raise core.Internal("rig: in and out process data overlap")
-        tm = Terminal(sg.current_data, inpos, outpos, case, bad)
-        written = bytearray()
-        delivered = bytearray()
-        app = [tuple(x) for x in case["app"]]
-        app_next, app_wait = 0, None
+        regions = []
+        for r in rigs:
+            term = terms[r.sub.get("term", 0)]
+            base = 0 if r.sub["chan"] == 1 else 24
+            inpos = sg.pdo_assign[term][SyncManager.IN] + base
+            outpos = sg.pdo_assign[term][SyncManager.OUT] + base
+            regions += [inpos, outpos]
+            r.attach(sg.current_data, inpos, outpos)
+        regions.sort()
+        if any(b - a < 24 for a, b in zip(regions, regions[1:])) \
+                or regions[-1] + 24 > len(sg.current_data):
+            raise core.Internal("rig: process data regions overlap")
         quiet = 0
         cycles = 0
-        H = horizon(case)
+        overlap = False
+        H = limit if limit is not None else max(horizon(s) for s in subs)
         for cycle in range(H):
             cycles += 1
-            tm.frame()
-            # application writes (several writes may fall into one cycle)
-            while app_next < len(app):
-                if app_wait is None:
-                    app_wait = app[app_next][0]
-                if app_wait > 0:
-                    app_wait -= 1
-                    break
-                n = app[app_next][1]
-                chunk = bytes(app_byte(seed, len(written) + j)
-                              for j in range(n))
-                if os.write(ser.out_write, chunk) != n:
-                    raise core.Internal("short write into the device pipe")
-                written += chunk
-                app_next += 1
-                app_wait = None
+            for r in rigs:
+                r.tm.frame()
+            if sum(r.tm.pending is not None for r in rigs) > 1:
+                overlap = True
+            for r in rigs:
+                r.app_writes()
+            # as SyncGroup.update_devices does
             try:
-                ser.update()
+                for dev in sg.devices:
+                    dev.update()
             except Exception as e:
-                bad("Serial.update raised", "no exception", repr(e))
+                rigs[sg.devices.index(dev)].bad(
+                    "Serial.update raised", "no exception", repr(e))
                 break
-            # the application drains its receive pipe every cycle
-            while True:
-                try:
-                    got = os.read(ser.in_read, 4096)
-                except BlockingIOError:
-                    break
-                if not got:
-                    break
-                delivered += got
+            for r in rigs:
+                r.drain()
             if trace is not None:
-                trace.append((cycle, tm.ctrl(), tm.get_status(), tm.state,
-                              len(written), len(tm.accepted),
-                              len(tm.announced), len(delivered)))
-            exp_deliv = (b"A" if ser.connected else b"") + bytes(tm.announced)
-            if not exp_deliv.startswith(bytes(delivered)):
-                bad("application received bytes the terminal did not "
-                    "announce (duplicate, reordered or foreign)",
-                    exp_deliv.hex(), bytes(delivered).hex())
-            if not bytes(written).startswith(bytes(tm.accepted)):
-                bad("terminal was given bytes the application did not write "
-                    "in that order (duplicate, reordered or foreign)",
-                    bytes(written).hex(), bytes(tm.accepted).hex())
+                for r in rigs:
+                    tm = r.tm
+                    trace.append((r.tag, cycle, tm.ctrl(), tm.get_status(),
+                                  tm.state, len(r.written), len(tm.accepted),
+                                  len(tm.announced), len(r.delivered)))
+            for r in rigs:
+                r.check_prefix()
             if viol:
                 break
-            if tm.done() and app_next == len(app) \
-                    and tm.accepted == written \
-                    and bytes(delivered) == b"A" + bytes(tm.announced):
+            if limit is None and all(r.complete() for r in rigs):
                 quiet += 1
                 if quiet > QUIET:
                     break
             else:
                 quiet = 0
-        if not viol:
-            if bytes(tm.accepted) != bytes(written):
-                bad("bytes written by the application were not presented "
-                    "to the terminal within the horizon",
-                    bytes(written).hex(), bytes(tm.accepted).hex())
-            if bytes(delivered) != b"A" + bytes(tm.announced):
-                bad("bytes announced by the terminal were not delivered to "
-                    "the application within the horizon",
-                    (b"A" + bytes(tm.announced)).hex(),
-                    bytes(delivered).hex())
-            if tm.tr_toggles != len(tm.chunks):
-                bad("transmit request toggles != chunks accepted",
-                    len(tm.chunks), tm.tr_toggles)
-            if tm.ra_toggles != len(tm.rx) or tm.waiting_ack:
-                bad("receive accept toggles != chunks announced",
-                    len(tm.rx), tm.ra_toggles)
-        stats = dict(cycles=cycles, tx_chunks=list(tm.chunks),
-                     rx_chunks=tm.rx_next, both=tm.both_active,
-                     tr=tm.tr_toggles, ra=tm.ra_toggles)
-        return viol, stats
+        if not viol and limit is None:
+            for r in rigs:
+                r.check_final()
+        return dict(cycles=cycles,
+                    tx_chunks=[list(r.tm.chunks) for r in rigs],
+                    rx_chunks=[r.tm.rx_next for r in rigs],
+                    both=any(r.tm.both_active for r in rigs),
+                    overlap=overlap,
+                    tr=[r.tm.tr_toggles for r in rigs],
+                    ra=[r.tm.ra_toggles for r in rigs],
+                    unsent=[len(r.written) - len(r.tm.accepted)
+                            for r in rigs])
     finally:
         for fd in fds:
             try:
                 os.close(fd)
             except OSError:
                 pass
+
+
+def execute(case, trace=None):
+    """returns (violations [(what, expected, observed, where)], stats dict)"""
+    viol = []
+    reset_library_state()
+    prior = None
+    if case.get("prior"):
+        # history: a Serial that was used and then abandoned (its pipes are
+        # closed, nobody calls update any more) earlier in the same process
+        p = case["prior"]
+        prior = run_phase([dict(p, term=p.get("term", 0))], viol,
+                          "abandoned device", limit=p["cycles"], trace=trace)
+    stats = run_phase(subs_of(case), viol, "main", trace=trace)
+    if prior is not None:
+        stats["prior_unsent"] = prior["unsent"][0]
+        stats["prior_chunks"] = len(prior["tx_chunks"][0])
+        stats["cycles"] += prior["cycles"]
+    return viol, stats
 
 
 # ------------------------------------------------------------------ families
@@ -362,6 +485,64 @@ def cases(ctx):
                               itertools.product(range(K + 1), repeat=2)]
     for n, (app, rx, lat) in enumerate(itertools.product(apps, rxs, lats)):
         add("X", app, lat, rx, inits[(n * 7 + 1) % len(inits)])
+
+    def sub(app, lat, rx, li, tog, term, chan, k):
+        # every device of an execution has its own payload coding
+        return dict(app=[list(a) for a in app], lat=list(lat),
+                    rx=[list(r) for r in rx], init=li, tog=list(tog),
+                    term=term, chan=chan, seed=seed + 5 * k)
+
+    # D: two Serial devices in ONE sync group (both channels of one EL6002
+    # in either device order, or one channel of each of two terminals), each
+    # with its own application script, terminal latencies and announcements
+    places = [((0, 1), (0, 2)), ((0, 2), (0, 1)), ((0, 1), (1, 1)),
+              ((0, 2), (1, 2))]
+    if q:
+        apps_a = scripts(2, (0, 2), (1, 23, 45))
+        apps_b = scripts(1, (0, 1, 3), (1, 22, 45))
+    else:
+        apps_a = scripts(2, (0, 1, 2), (1, 22, 23, 45))
+        apps_b = scripts(1, (0, 1, 3), LENGTHS) + \
+            [((0, 23), (0, 23)), ((2, 1), (1, 45))]
+    latpairs = [(a, b) for a in lat_few for b in lat_few]
+    rxpairs = [((), ()), ((), rx_busy), (rx_busy, ()), (rx_busy, rx_busy)]
+    lis = [(a, b) for a in range(K + 1) for b in range(K + 1)]
+    togs = [(0, 0), (1, 0), (0, 1), (1, 1)]
+    n = 0
+    for app_a, app_b in itertools.product(apps_a, apps_b):
+        for place in (places[:3] if q else places):
+            for j in range(2 if q else 4):
+                n += 1
+                lat_a, lat_b = latpairs[(n * 2 + j) % len(latpairs)]
+                rx_a, rx_b = rxpairs[(n + j) % len(rxpairs)]
+                li_a, li_b = lis[(n * 4 + j) % len(lis)]
+                out.append(dict(fam="D", seed=seed, chans=[
+                    sub(app_a, lat_a, rx_a, li_a, togs[n % 4], *place[0], 0),
+                    sub(app_b, lat_b, rx_b, li_b, togs[(n // 4) % 4],
+                        *place[1], 1)]))
+    # H: histories - a Serial that was used and abandoned after c cycles
+    # (with bytes still in its pipe, fetched but not sent, or in flight),
+    # then a fresh Serial in the same process
+    priors = [((0, 1),), ((0, 23),), ((0, 45),), ((0, 22), (0, 22)),
+              ((0, 70),), ((0, 22), (2, 30))]
+    mains = [(), ((0, 1),), ((0, 45),), ((1, 22), (0, 23))]
+    n = 0
+    for papp in priors:
+        for cut in range(1, 7 if q else 10):
+            for lat in (lat_few[:2] if q else lat_few):
+                for app in mains:
+                    for pch, ch in ((1, 1), (1, 2), (2, 1), (2, 2)):
+                        n += 1
+                        li = n % (K + 1)
+                        c = sub(app, lat_few[n % 3],
+                                (rx_busy, ())[(n // 3) % 2], (n // 2) % (K + 1),
+                                togs[n % 4], 0, ch, 0)
+                        del c["seed"]
+                        p = sub(papp, lat, ((), rx_busy)[n % 2], li,
+                                togs[(n // 4) % 4], 0, pch, 1)
+                        # the cut counts from the cycle the connection is made
+                        p["cycles"] = li + 2 + cut
+                        out.append(dict(c, fam="H", seed=seed, prior=p))
     return out
 
 
@@ -370,12 +551,25 @@ def work(case, res):
     res.count("evaluations")
     res.count("traces_validated_against_impl")
     res.count("transitions", stats["cycles"])
-    if stats["tx_chunks"] or stats["rx_chunks"]:
+    ntx = sum(len(c) for c in stats["tx_chunks"])
+    nrx = sum(stats["rx_chunks"])
+    if ntx or nrx:
         res.nontrivial.add(core.digest(case))
-    res.outcomes.add((len(stats["tx_chunks"]), stats["rx_chunks"],
-                      stats["both"], bool(viol)))
-    for what, exp, obs in viol:
-        res.violation(case, exp, obs, sig=core.digest([what]), note=what)
+    if len(stats["tx_chunks"]) > 1:
+        if stats["overlap"]:
+            res.count("two_devices_transmitting_at_once")
+        if any(len(c) > 1 for c in stats["tx_chunks"]) and \
+                any(not c for c in stats["tx_chunks"]):
+            res.count("one_device_several_chunks_other_idle")
+    if stats.get("prior_unsent"):
+        res.count("abandoned_with_unsent_bytes")
+    res.outcomes.add((len(stats["tx_chunks"]), ntx, nrx,
+                      stats["both"], stats["overlap"],
+                      bool(stats.get("prior_unsent")), bool(viol)))
+    for what, exp, obs, where in viol:
+        res.violation(case, exp, obs, sig=core.digest([what]),
+                      note=what if where == "main" else
+                      "%s [%s]" % (what, where))
 
 
 def selftest():
@@ -413,10 +607,15 @@ def selftest():
 def run(ctx):
     selftest()
     items = cases(ctx)
-    # determinism and fd hygiene: the first executions twice
+    # determinism and fd hygiene: some executions of every family twice
     nfd = len(os.listdir("/proc/self/fd"))
-    for c in items[:20] + items[-20:]:
-        if execute(c) != execute(c):
+    probe = items[:20] + items[-20:] + \
+        [c for c in items if c["fam"] == "D"][:300:15]
+    for c in probe:
+        first = execute(c)
+        # (an execution that violates the property may well leave the
+        # library in a different state; it is reported below anyway)
+        if not first[0] and execute(c) != first:
             raise core.Internal("execution is not deterministic")
     if len(os.listdir("/proc/self/fd")) != nfd:
         raise core.Internal("file descriptors leak")
@@ -428,8 +627,17 @@ def run(ctx):
     res.cov["alphabet"] = dict(
         families=fam, k=K, app_lengths=LENGTHS, rx_lengths=RXLENGTHS,
         app_gaps=[0, 1, 2, 3], rx_gaps=list(range(K + 1)),
-        init_latency=list(range(K + 1)), initial_toggle_bits=4, channels=2)
-    res.cov["bound_completed"] = "all scripts of families T, R, X"
+        init_latency=list(range(K + 1)), initial_toggle_bits=4, channels=2,
+        devices_per_sync_group=[1, 2],
+        placements_of_two_devices=["t0c1+t0c2", "t0c2+t0c1", "t0c1+t1c1"] +
+        ([] if ctx.quick else ["t0c2+t1c2"]),
+        abandoned_after_cycles=[1, 6 if ctx.quick else 9])
+    res.cov["bound_completed"] = "all scripts of families T, R, X, D, H"
+    for k in ("two_devices_transmitting_at_once",
+              "one_device_several_chunks_other_idle",
+              "abandoned_with_unsent_bytes"):
+        if not res.cov.get(k) and not res.violations:
+            raise core.Internal("vacuous: no execution with " + k)
     for c in (items[1], items[len(items) // 2], items[-1]):
         res.sample(c)
     res.assumptions += [
@@ -445,8 +653,20 @@ def run(ctx):
         "the terminal announces a chunk only after the previous one has "
         "been acknowledged and never during initialisation; the application "
         "drains its pipe every cycle",
-        "payload bytes are position-coded (seed changes the coding); the "
-        "device never looks at payload values",
+        "payload bytes are position-coded (seed changes the coding, and "
+        "every device of an execution has its own coding); the device "
+        "never looks at payload values",
+        "several Serial devices of one sync group (family D) are updated in "
+        "the order of SyncGroup.devices once per cycle, as "
+        "SyncGroup.update_devices does; every channel has its own terminal "
+        "model and application and is judged on its own: it must present "
+        "exactly the bytes its own application wrote (for two independent "
+        "channels the horizon is the larger of the two)",
+        "family H: the abandoned device is judged by the prefix oracles only "
+        "(it is never completed); the fresh device by all of them; 'the "
+        "same process' is one forked worker, library state outside of "
+        "Serial instances is put back to its import-time value between "
+        "executions, never inside one",
     ]
     return res
 
@@ -455,12 +675,12 @@ def replay(ctx, rep):
     case = rep["case"]
     trace = []
     viol, stats = execute(case, trace)
-    print("  cycle ctrl(TR,RA,IR) status(TA,RR,IA) state written accepted "
-          "announced delivered")
+    print("  device / cycle ctrl(TR,RA,IR) status(TA,RR,IA) state written "
+          "accepted announced delivered")
     for t in trace:
-        print("  %5d %-14s %-16s %-6s %7d %8d %9d %9d" % t)
+        print("  %s %5d %-14s %-16s %-6s %7d %8d %9d %9d" % t)
     print("  ", stats)
     res = core.Result()
-    for what, exp, obs in viol:
-        res.violation(case, exp, obs, note=what)
+    for what, exp, obs, where in viol:
+        res.violation(case, exp, obs, note="%s [%s]" % (what, where))
     return res.violations
